@@ -134,6 +134,7 @@ class Ctx:
         self.snap_base = {}                    # name -> exact key at creation
         self.probes = {}
         self.model_state = {}                  # for O5 store model etc.
+        self.active_tracer = None              # tracer of the faulted step whose operation is on the stack
         self.kept = []                         # (record, raw result, exact key at return time) for O6
         self.fingerprints = set()
         self._watch = None
@@ -168,6 +169,10 @@ class Ctx:
             except Exception as e:   # a snapshot that cannot be taken any more is a change
                 k = "snapshot-failed:" + type(e).__name__
             if k != self.snap_base[name]:
+                if os.environ.get("VERIF_DEBUG_O2"):
+                    a, b = self.snap_base[name], k
+                    i = next((j for j in range(min(len(a), len(b))) if a[j] != b[j]), min(len(a), len(b)))
+                    sys.stderr.write(f"O2 {name}: ...{a[max(0, i - 120):i + 60]!r} -> ...{b[max(0, i - 120):i + 60]!r}\n")
                 changed.append(name)
                 self.snap_base[name] = k      # report each mutation once, at the step that made it
         return changed
@@ -225,6 +230,7 @@ class Seam:
             self.raise_at = int(f.get("at", 0))
             self.raise_exc = INJECTED.get(f.get("exc", "interrupt"), INJECTED["interrupt"])()
         self.raised = False
+        self.active = False
         self.used = bool(step.get("wrap", False)) or bool(self.nested) or self.raise_at is not None
 
     def wrap(self, default):
@@ -233,6 +239,10 @@ class Seam:
         seam = self
 
         def wrapper(*a, **kw):
+            if not seam.active:
+                # the wrapped callable outlived its step (a solution object keeps its mapper and calls it on every
+                # query): outside the host step it is the plain callable, whatever happens there belongs to that step
+                return default(*a, **kw)
             n = seam.calls
             seam.calls += 1
             steps = seam.nested.get(n)
@@ -247,11 +257,16 @@ class Seam:
                 if ctx.depth + 1 > ctx.probes.get("max_nest_depth", 0):
                     ctx.probes["max_nest_depth"] = ctx.depth + 1
                 ctx.depth += 1
+                tr = ctx.active_tracer
+                if tr is not None:
+                    tr.paused += 1      # an interrupt aimed at one call never fires inside another client's step
                 try:
                     for s in steps:
                         exec_step(ctx, s, host=seam.step["id"])
                 finally:
                     ctx.depth -= 1
+                    if tr is not None:
+                        tr.paused -= 1
             if seam.raise_at is not None and n == seam.raise_at:
                 # a user-supplied callable (solver, input signal, mapper, dump function) may raise
                 seam.raised = True
@@ -270,6 +285,7 @@ class Tracer:
         self.k = k
         self.count = 0
         self.fired_at = None
+        self.paused = 0          # > 0 while the simulator itself drives library code (nested steps, snapshots)
         self.prefix = SRC + os.sep
 
     def global_trace(self, frame, event, arg):
@@ -278,7 +294,7 @@ class Tracer:
         return None
 
     def local_trace(self, frame, event, arg):
-        if event == "line" and self.fired_at is None:
+        if event == "line" and self.fired_at is None and not self.paused:
             self.count += 1
             if self.count == self.k:
                 self.fired_at = (os.path.relpath(frame.f_code.co_filename, SRC), frame.f_lineno)
@@ -324,13 +340,22 @@ def exec_step(ctx, step, host=None):
             ds = sys.modules.get("schemdraw.drawing_stack")
             ds_saved = (dict(ds.drawing_stack), ds.pause) if ds is not None else None
             old = sys.gettrace()
+            outer_tracer = ctx.active_tracer
+            ctx.active_tracer = tracer
             sys.settrace(tracer.global_trace)
+            seam.active = True
             try:
                 res = spec.fn(ctx, a, seam)
             finally:
+                seam.active = False
                 sys.settrace(old)
+                ctx.active_tracer = outer_tracer
         else:
-            res = spec.fn(ctx, a, seam)
+            seam.active = True
+            try:
+                res = spec.fn(ctx, a, seam)
+            finally:
+                seam.active = False
     except Skip as e:
         res = None
         status = "skip"
